@@ -114,6 +114,19 @@ let check_line (line : string) : unit =
                       let cellp = try List.nth (split_on ',' prev) idx with _ -> "-" in
                       if ty = fst k && cellp <> "-" then oracle "none_iff_absent" i
                   | _ -> ());
+                 (* C09: presence queries and fetches agree with the map: has_value / get_mut / the fetches answer
+                    "there" exactly when the REAL probe taken before the call shows a value under that key *)
+                 (let cell_before k =
+                    let idx = int_of_n (fst k) * ndyn + int_of_n (snd k) in
+                    try List.nth (split_on ',' prev) idx with _ -> "-" in
+                  match o with
+                  | OHas k -> if (rout = "b1") <> (cell_before k <> "-") && prev <> "" then oracle "presence_agrees" i
+                  | OGetMut k -> if rout <> "pe" && prev <> "" && ((rout = "n") <> (cell_before k = "-")) then oracle "presence_agrees" i
+                  | OFetchOp (_, ty, k) when ty = fst k && prev <> "" ->
+                      let there = cell_before k <> "-" in
+                      if (rout = "n" && there) || (String.length rout > 0 && rout.[0] = 'g' && not there) || (rout = "px" && there)
+                      then oracle "presence_agrees" i
+                  | _ -> ());
                  (* C08: shared xor exclusive, as far as the probe shows: class 0,1,2 only *)
                  List.iter (fun c -> if c <> "-" && not (List.mem c.[0] ['0'; '1'; '2']) then oracle "borrow_class" i) (split_on ',' rprobe);
                  (* C09: insert replaces at ITS key, remove empties ITS key, entry touches only (ty, 0); every other slot —
